@@ -239,7 +239,15 @@ func (inv *Invoice) Invert() error {
 			row.Amount = row.Amount.Invert()
 		}
 	}
+	// an externally provided rounding adjustment is part of payable: keep it, negated
+	var rounding *num.Amount
+	if inv.Totals.Rounding != nil {
+		rounding = invertAmountPtr(inv.Totals.Rounding)
+	}
 	inv.Totals = nil
+	if rounding != nil {
+		inv.Totals = &Totals{Rounding: rounding}
+	}
 
 	if err := inv.Calculate(); err != nil {
 		return err
